@@ -638,6 +638,16 @@ def run(sc: dict, keep_log: bool = False, in_world=None) -> Obs:
                     o = origins.get((str(srv.address[0]).lower(), srv.address[1]))
                     if o and o.get("force_offers") is not None:
                         srv.alpn_offers = [x.encode() for x in o["force_offers"]]
+            # an earlier addon overrides the upstream SNI: origin["sni_fault"] = {"hook": "server_connect" |
+            # "tls_start_server", "sni": str} (unset: no effect)
+            if name in ("server_connect", "tls_start_server"):
+                srv = data.server if name == "server_connect" else data.conn
+                if srv.address:
+                    o = origins.get((str(srv.address[0]).lower(), srv.address[1]))
+                    sf = o.get("sni_fault") if o else None
+                    if sf and sf.get("hook") == name:
+                        srv.sni = sf["sni"]
+                        ev("sni_fault", name)
             # a slow addon: sc["hook_delay"] = {hook name: seconds} (unset: no effect)
             d = hook_delay.get(name)
             if d:
